@@ -141,7 +141,8 @@ def gen_topology(rng, family=None, c03=True, nframes=None):
     for n in nodes:       # ZMQ_LOW_LATENCY: no prefetch request (latency for throughput) - every property must hold either way
         if n['sources'] and rng.random() < 0.25: n['low_latency'] = True
     return {'family': family, 'nframes': nframes, 'nodes': nodes, 'max_delay_ms': rng.choice([0, 5, 20, 60, 90]),
-            'sub_connect_ms': rng.choice([0, 0, 30, 90, 400]), 'metrics_push': rng.random() < 0.5, 'transport': rng.choice(['ipc', 'ipc', 'tcp'])}     # slow joiner: the publish path of a connection comes up later than its request path
+            'sub_connect_ms': rng.choice([0, 0, 30, 90, 400]), 'metrics_push': rng.random() < 0.5, 'transport': rng.choice(['ipc', 'ipc', 'tcp']),
+            'switches': {'warn_older': rng.random() < 0.6, 'warn_newer': rng.random() < 0.6}}     # slow joiner: the publish path of a connection comes up later than its request path
 
 
 def transport_addr(topo, s, bind=False):
@@ -162,6 +163,8 @@ def transport_addr(topo, s, bind=False):
 
 def build(net, topo, listeners=()):
     objs = {}
+    sw = topo.get('switches') or {}        # logging-only switches of zeromq.py (module constants read from the environment at import)
+    net.Z.ZMQ_WARN_OLDER, net.Z.ZMQ_WARN_NEWER = sw.get('warn_older', True), sw.get('warn_newer', True)
     net.M.OUTPUTS_METRICS_PUSH = bool(topo.get('metrics_push', True))      # module constant read from the environment at import, used at call time
     for n in topo['nodes']:
         nd = mqnet.Node(net, n['name'], [transport_addr(topo, s) for s in n['sources']] or None,
